@@ -212,6 +212,13 @@ def run_check(tier, seed):
         segment_layer_part(sub, seed)
     except EngineError as e:
         ck.inconclusive.append('interface fact (segment layer delivers complete records across a crash and restart) not decidable: %s' % e)
+    # fourth interface fact (the last layer): the interval a client gets from the Rust or the C library is exactly the one
+    # ClockErrorBound::now() computed for the snapshot and clock readings of THAT call (no state of the client object enters)
+    try:
+        from .abi_layout import wrappers_for_c14
+        wrappers_for_c14(sub, prog_s, seed, key='client-library-alters-the-interval')
+    except EngineError as e:
+        ck.inconclusive.append('interface fact (client libraries hand on the interval of now()) not decidable: %s' % e)
     for key, desc, path in sub.violations:
         ck.violations.append(('interface:' + key, 'interface fact of the composition violated - ' + desc, path))
     ck.inconclusive += ['interface fact: ' + i for i in sub.inconclusive]
